@@ -322,7 +322,15 @@ func runC16(c *fw.Case) {
 	}
 	c.Describe(totalLocked.String(), len(prePools)) // distinct by staged state, not only by its shape
 	// ---- run the registered upgrade handler ----
-	if p := safeCall("ApplyUpgrade", func() { app.UpgradeKeeper.ApplyUpgrade(ctx, upgradetypes.Plan{Name: v120.UpgradeName, Height: 100}) }); p != nil {
+	// the node that runs the upgrade lives in some time zone; the result must not depend on it
+	zone := []string{"UTC", "America/New_York", "Europe/Warsaw", "Pacific/Kiritimati", "America/St_Johns", "Australia/Lord_Howe"}[c.Index%6]
+	oldLocal := time.Local
+	if loc, lerr := time.LoadLocation(zone); lerr == nil {
+		time.Local = loc
+	}
+	pUp := safeCall("ApplyUpgrade", func() { app.UpgradeKeeper.ApplyUpgrade(ctx, upgradetypes.Plan{Name: v120.UpgradeName, Height: 100}) })
+	time.Local = oldLocal
+	if p := pUp; p != nil {
 		if invalidLegacy != "" {
 			c.Count("upgrades_refused_for_invalid_legacy_params", 1)
 			return
@@ -429,13 +437,13 @@ func runC16(c *fw.Case) {
 			c.Violate("C16/shifted-account-type", "account %s is no longer a continuous vesting account", a)
 			continue
 		}
-		wantS := time.Unix(pre.StartTime, 0).AddDate(1, 0, 0).Unix()
-		wantE := time.Unix(pre.EndTime, 0).AddDate(1, 0, 0).Unix()
+		wantS := time.Unix(pre.StartTime, 0).UTC().AddDate(1, 0, 0).Unix()
+		wantE := time.Unix(pre.EndTime, 0).UTC().AddDate(1, 0, 0).Unix()
 		if !acc.OriginalVesting.IsEqual(pre.OriginalVesting) || !acc.DelegatedVesting.IsEqual(pre.DelegatedVesting) || !acc.DelegatedFree.IsEqual(pre.DelegatedFree) {
 			c.Violate("C16/shifted-account-amounts", "account %s: vesting amounts changed by the upgrade", a)
 		}
 		if acc.StartTime != wantS || acc.EndTime != wantE {
-			c.Violate("C16/shifted-account-schedule", "account %s: schedule [%d,%d] after the upgrade, expected [%d,%d] (one calendar year later)", a, acc.StartTime, acc.EndTime, wantS, wantE)
+			c.Violate("C16/shifted-account-schedule", "account %s: schedule [%d,%d] after the upgrade on a node in time zone %s, expected [%d,%d] (one calendar year later, as a node in UTC computes it)", a, acc.StartTime, acc.EndTime, zone, wantS, wantE)
 		}
 		c.Count("shifted_accounts_checked", 1)
 	}
